@@ -104,7 +104,7 @@ def ods_rows_contract():
         return Sym(BOOL, z3.And(row.length == L(rowe, kk), L(rowe, kk) >= 0, mono, cells_ok))
     def missing_sheet_or_fault(ex, st):
         ip, iv = int_fns(ex)
-        rc = st.frames[-1].env.get("repeated_count")
+        rc = st.ghost.get("last_int")       # the repeat count parsed last (the only use of int() in ods_rows), whatever local or helper holds it
         low = (lift(rc).z < 1) if rc is not None else z3.BoolVal(False)
         return Sym(BOOL, z3.Or(z3.BoolVal(bool(st.ghost["fault"])), nchild(G(st, "root"), 0) < G(st, "sheet0"), z3.BoolVal(bool(st.ghost.get("bad_repeat"))), low))
     c = Contract("rowio.ods_rows", setup,
@@ -129,7 +129,7 @@ def unit_ods_rows():
         def m_int(ex, st, fn, args, kw):
             ip, iv = int_fns(ex); v = lift(args[0]).z
             for s2, b in ex.fork(st, Sym(BOOL, ip(v))):
-                if b: yield s2, Sym(INT, iv(v))
+                if b: s2.ghost["last_int"] = Sym(INT, iv(v)); yield s2, Sym(INT, iv(v))
                 else: s2.ghost["bad_repeat"] = True; yield s2, Raise(ex.new_builtin_exc(s2, "ValueError", ["invalid literal"]))
         def before_raise_lt1(ex_, s): s.ghost["bad_repeat"] = True
         cal = {"rowio._findall": ModelContract(m_findall), "builtin:zipfile.ZipFile": m_zipfile, "builtin:closing": m_closing, "ref:Zip.read": m_zip_read, "ref:Zip.close": m_zip_close,
